@@ -56,6 +56,10 @@ pub struct Scenario {
     /// Workloads that are not plain `Solver::solve` histories (C16 snapshot, C20 cache clients).
     #[serde(default)]
     pub extra: Option<Extra>,
+    /// `should_cancel_with_value` answers Some while an Unsolvable result is being rendered (a deadline-based
+    /// provider whose deadline passes after solve returned).
+    #[serde(default)]
+    pub cancel_during_render: bool,
 }
 
 #[derive(Clone, Debug, PartialEq, Serialize, Deserialize)]
@@ -96,6 +100,9 @@ pub struct SnapSpec {
     pub serde_cycles: u8,
     /// (package name, matcher) of successive add_package_requirement calls
     pub adds: Vec<(u32, String)>,
+    /// `with_timeout(far future)` is applied after this many adds (None = never)
+    #[serde(default)]
+    pub timeout_after: Option<usize>,
     pub problems: Vec<SnapProblem>,
 }
 
@@ -114,6 +121,9 @@ pub enum CacheOp {
 pub struct CacheSpec {
     /// concurrent client tasks, each issuing its operations in order
     pub clients: Vec<Vec<CacheOp>>,
+    /// cancellation fault during the concurrent phase
+    #[serde(default)]
+    pub cancel: Option<CancelPlan>,
 }
 
 impl Scenario {
@@ -134,10 +144,11 @@ impl Scenario {
             activity: None,
             reentrant_sort: false,
             render: false,
-            step_budget: 200_000,
-            poll_budget: 200_000,
+            step_budget: 100_000,
+            poll_budget: 30_000,
             extra_salts: vec![],
             extra: None,
+            cancel_during_render: false,
         }
     }
 }
@@ -443,8 +454,15 @@ fn drive<RT: AsyncRuntime>(
                     .collect::<Vec<_>>(),
             );
         let res = catch_unwind(AssertUnwindSafe(|| solver.solve(problem)));
-        // cancellation never leaks into rendering / bookkeeping
-        *core.cancel_plan.borrow_mut() = None;
+        // cancellation does not leak into rendering / bookkeeping, unless the scenario asks for it
+        *core.cancel_plan.borrow_mut() = if sc.cancel_during_render {
+            Some(CancelPlan {
+                at_poll: 0,
+                mode: crate::core::CancelMode::Persistent,
+            })
+        } else {
+            None
+        };
         let mut fatal = false;
         let outcome = match res {
             Ok(Ok(v)) => Outcome::Ok(v.into_iter().map(|s| s.0).collect()),
